@@ -41,8 +41,9 @@ func runC01(c *Ctx) {
 		phases []byte
 		tmo    time.Duration
 		kinds  []string
-		cancel bool // the context given to Connect is cancelled as soon as Connect has returned
-		manual bool // the application drives a bare RetryClient (own redial loop) instead of a ReconnectClient
+		rtmo   time.Duration // RetryClient.ResponseTimeout
+		cancel bool          // the context given to Connect is cancelled as soon as Connect has returned
+		manual bool          // the application drives a bare RetryClient (own redial loop) instead of a ReconnectClient
 	}
 	base := env.FaultSet{LostClose: true, WriteErr: true, AckLost: true}
 	conn := env.FaultSet{LostClose: true, WriteErr: true, AckLost: true, ConnRefuse: true, DialErr: true}
@@ -54,6 +55,7 @@ func runC01(c *Ctx) {
 		{name: "N2.F1.P1.S1", n: 2, bound: vrt.Budget{F: 1, P: 1, S: 1, Total: 2}, faults: env.FaultSet{LostClose: true, AckLost: true}, keep: []bool{true}, phases: []byte{'B', 'N'}, kinds: []string{"p1", "p2"}},
 		{name: "manual.N2.F1", n: 2, bound: vrt.Budget{F: 1}, faults: conn, keep: []bool{true, false}, phases: []byte{'B', 'N', 'O'}, kinds: []string{"p1", "p2", "sub"}, manual: true},
 		{name: "N2.F1.connect-ctx-cancelled", n: 2, bound: vrt.Budget{F: 1}, faults: base, keep: []bool{true}, phases: []byte{'S', 'N', 'O'}, kinds: []string{"p1", "p2", "sub", "unsub"}, cancel: true},
+		{name: "N2.F1.silent-link.response-timeout", n: 2, bound: vrt.Budget{F: 1}, faults: env.FaultSet{Silent: true, SilentDrop: true, OnlyTypes: map[byte]bool{env.PUBLISH: true, env.PUBREL: true, env.SUBSCRIBE: true, env.UNSUBSCRIBE: true}}, keep: []bool{true}, phases: []byte{'S', 'N'}, kinds: []string{"p1", "p2", "sub", "unsub"}, rtmo: 2 * time.Second},
 		{name: "N1.F2.noconnack", n: 1, bound: vrt.Budget{F: 2}, faults: env.FaultSet{NoConnAck: true, LostClose: true, OnlyTypes: map[byte]bool{env.CONNECT: true, env.PUBLISH: true, env.SUBSCRIBE: true}}, keep: []bool{true}, phases: []byte{'B', 'S'}, tmo: 3 * time.Second, kinds: all},
 	}
 	if c.Thorough() {
@@ -65,6 +67,7 @@ func runC01(c *Ctx) {
 			{name: "manual.N2.F2", n: 2, bound: vrt.Budget{F: 2}, faults: conn, keep: []bool{true, false}, phases: []byte{'B', 'S', 'N', 'O'}, kinds: all, manual: true},
 			{name: "manual.N2.F1.P1.S1", n: 2, bound: vrt.Budget{F: 1, P: 1, S: 1, Total: 2}, faults: base, keep: []bool{true}, phases: []byte{'B', 'N', 'O'}, kinds: []string{"p1", "p2", "sub"}, manual: true},
 			{name: "N2.F2.connect-ctx-cancelled", n: 2, bound: vrt.Budget{F: 2}, faults: conn, keep: []bool{true, false}, phases: []byte{'B', 'S', 'N', 'O', 'H'}, kinds: all, cancel: true},
+			{name: "N2.F2.silent-link.response-timeout", n: 2, bound: vrt.Budget{F: 2}, faults: env.FaultSet{Silent: true, SilentDrop: true, LostClose: true, OnlyTypes: map[byte]bool{env.PUBLISH: true, env.PUBREL: true, env.SUBSCRIBE: true, env.UNSUBSCRIBE: true}}, keep: []bool{true}, phases: []byte{'B', 'S', 'N'}, kinds: []string{"p1", "p2", "sub", "unsub"}, rtmo: 2 * time.Second},
 			{name: "N2.F2.noconnack", n: 2, bound: vrt.Budget{F: 2}, faults: env.FaultSet{NoConnAck: true, LostClose: true, AckLost: true}, keep: []bool{true}, phases: []byte{'B', 'S'}, tmo: 3 * time.Second, kinds: all},
 		}
 	}
@@ -83,7 +86,7 @@ func runC01(c *Ctx) {
 					Bound: f.bound,
 					Cfg:   vrt.Config{Horizon: int64(300 * time.Second)},
 					Body: func() {
-						rcExecuteInto(&rcCfg{Reqs: reqs, Faults: f.faults, KeepSession: keep, ConnTimeout: f.tmo, Manual: f.manual, CancelConnectCtx: f.cancel}, &run)
+						rcExecuteInto(&rcCfg{Reqs: reqs, Faults: f.faults, KeepSession: keep, ConnTimeout: f.tmo, Manual: f.manual, CancelConnectCtx: f.cancel, RespTimeout: f.rtmo}, &run)
 						c01Oracle(run)
 					},
 					Observe: func() uint64 { return run.net.TraceHash() },
